@@ -488,6 +488,8 @@ class Check:
             "correspondence": self.corr,
             "known_findings_seen": known_seen,
             "notes": self.notes,
+            "anchor_fingerprints": fingerprints(self.pid),
+            "escalated_because_changed": list(ESCALATED),
         }
         cov.update(self.extra)
         ev = {"property_id": self.pid, "tier": self.tier, "seed": seed(), "level": "proof",
@@ -498,10 +500,65 @@ class Check:
             json.dump(ev, f, indent=1, default=str)
 
 
+# ----------------------------------------------------------------------------------------
+#  source fingerprints of the anchored files (DESIGN.md 3.2): a changed anchor deepens the run
+# ----------------------------------------------------------------------------------------
+
+def anchored_files(pid):
+    for l in open(os.path.join(VERIF, "properties.jsonl")):
+        d = json.loads(l)
+        if d["id"] == pid:
+            return list(d.get("anchors", {}).get("files", []))
+    return []
+
+
+def file_fingerprint(path):
+    """hash of the file's AST (comments and layout do not count); of the bytes if it does not parse"""
+    import ast
+    try:
+        src = open(path, "rb").read()
+    except OSError:
+        return "missing"
+    try:
+        return hashlib.sha1(ast.dump(ast.parse(src)).encode()).hexdigest()
+    except Exception:
+        return "raw:" + hashlib.sha1(src).hexdigest()
+
+
+def fingerprints(pid):
+    return {f: file_fingerprint(os.path.join(REPO, f)) for f in anchored_files(pid)}
+
+
+def changed_anchors(pid):
+    """anchored files whose AST differs from the one recorded in /verif/fingerprints.json (committed; written only by
+    harness/fingerprints.py --update). No record -> no escalation."""
+    p = os.path.join(VERIF, "fingerprints.json")
+    if not os.path.exists(p):
+        return []
+    rec = json.load(open(p)).get(pid)
+    if not rec:
+        return []
+    cur = fingerprints(pid)
+    return sorted(f for f in cur if rec.get(f) != cur[f])
+
+
+ESCALATED = []
+
+
 def parse_args(argv):
     import argparse
     ap = argparse.ArgumentParser()
     ap.add_argument("pid")
     ap.add_argument("--tier", default=os.environ.get("VERIF_TIER", "quick"), choices=["quick", "thorough"])
     ap.add_argument("--replay", default=None)
-    return ap.parse_args(argv)
+    a = ap.parse_args(argv)
+    if a.tier == "quick" and not a.replay and os.environ.get("VERIF_NO_ESCALATE") != "1":
+        ch = changed_anchors(a.pid)
+        if ch:
+            # the code this property is anchored in is not the code the model was last validated against:
+            # explore with the thorough budget (a change that needs a rare input to manifest is the case to catch)
+            ESCALATED.extend(ch)
+            print("[%s] anchored source changed since the recorded fingerprints (%s): running with the thorough budget"
+                  % (a.pid, ", ".join(ch[:4]) + (" ..." if len(ch) > 4 else "")))
+            a.tier = "thorough"
+    return a
